@@ -77,6 +77,7 @@ func (in *Interp) resetPath(prefix []int) {
 	in.factMap = map[string]bool{}
 	in.dom = map[string]domain{}
 	in.entangled = map[string]bool{}
+	in.bound, in.boundMemo = nil, nil
 	in.domTrail = in.domTrail[:0]
 	in.clockN = 0
 	in.Solver.PopTo(0)
